@@ -2,7 +2,7 @@
 from harness.props import sysrun
 from harness.sched import monitors as M
 
-PROP_FILE = 'C08'
+PROP_FILE = ['C08', 'C08Wait']
 
 
 def mons():
@@ -29,7 +29,14 @@ def run(ctx):
                           'in on_queued) on every transfer type/mode in every outcome: success, each fault position, each cancellation point '
                           '(incl. cancel racing the submission thread: two announcers; a stage refusing a submit, with directed schedules for the '
                           'GetObject-to-IO hand-off racing the failing submission task); distinct = distinct event trace')
+    # the waiting loop of a failed submission task against model/WaitLoop.v (evaluated inside Coq)
+    from harness.props import c08wait
+    if len(ctx.violations) < 5 and ctx.broken is None:
+        c08wait.check(ctx)
 
 
 def replay(ctx, data):
+    if isinstance(data.get('case'), dict) and 'waitloop' in data['case']:
+        from harness.props import c08wait
+        return c08wait.replay(ctx, data)
     return sysrun.replay_spec(ctx, data, mons())
